@@ -15,6 +15,7 @@ mod elig;
 
 mod blsx;
 mod c01;
+mod c02;
 mod c08;
 mod wire;
 mod fixtures;
@@ -25,6 +26,7 @@ fn main() {
     let which = args.rest.first().cloned().unwrap_or_default();
     let code = match which.as_str() {
         "C01" => c01::run(&args),
+        "C02" => c02::run(&args),
         "C08" => c08::run(&args),
         "C08-timing" => {
             c08::timing();
